@@ -103,6 +103,11 @@ func genScenario(r *vlib.PRNG, idx int) scenario {
 	}
 	s := scenario{Name: fmt.Sprintf("s%d", idx), Cfg: c}
 	pageSize := uint64(1) << c.Log2PageSize
+	// accesses whose span runs past the end of their page come from a generator
+	// of their own (Fork does not advance r), so the rest of the scenario is the
+	// same with and without them
+	rs := r.Fork("straddle")
+	straddleDen := pick(rs, 0, 4, 6, 6, 10)
 	nV, nPID := 1+r.Intn(5), 1+r.Intn(4)
 	if r.Chance(1, 2) && nPID < 2 {
 		nPID = 2
@@ -194,6 +199,21 @@ func genScenario(r *vlib.PRNG, idx int) scenario {
 				if !used[key{o.PID, o.Addr}] {
 					used[key{o.PID, o.Addr}] = true
 					break
+				}
+			}
+			if straddleDen > 0 && o.Size >= 2 && rs.Chance(1, straddleDen) {
+				// the last `over` bytes (1..size-1) lie beyond the end of the page
+				for try := 0; try < 4; try++ {
+					over := 1 + rs.Intn(o.Size-1)
+					if rs.Chance(1, 4) {
+						over = pick(rs, 1, o.Size-1)
+					}
+					a := curV + pageSize - uint64(o.Size-over)
+					if !used[key{o.PID, a}] {
+						used[key{o.PID, a}] = true
+						o.Addr = a
+						break
+					}
 				}
 			}
 			if o.Write {
@@ -294,13 +314,72 @@ func canonical() []scenario {
 		o.Who = i % 2
 		long = append(long, o)
 	}
+	// 5: accesses that start in a page and end beyond it, for every page size:
+	// reads, writes and masked writes, 1 .. size-1 bytes over the end; the
+	// following virtual page is mapped for PID 0 and 1 (to a physical page that
+	// is not the next one) and unmapped for PID 2
+	var straddling []scenario
+	for log2 := uint64(12); log2 <= 16; log2++ {
+		ps := uint64(1) << log2
+		v0 := uint64(0x40000)
+		pg := pages(log2, v0, v0+ps)
+		pg = pg[:len(pg)-1] // PID 2: second page unmapped
+		for j := range pg {
+			if pg[j].VPage != v0 { // physically not behind the first page
+				pg[j].PAddr += 0x40 << log2
+			}
+		}
+		sc := base
+		sc.Log2PageSize = log2
+		sc.NumReqPerCycle = 1 + int(log2)%3
+		var ops []op
+		type pa struct {
+			pid  uint32
+			addr uint64
+		}
+		taken := map[pa]bool{}
+		add := func(o op) {
+			if !taken[pa{o.PID, o.Addr}] {
+				taken[pa{o.PID, o.Addr}] = true
+				ops = append(ops, o)
+			}
+		}
+		i := 0
+		for _, size := range []int{64, 32, 16, 8, 4, 2, 37} {
+			for _, over := range []int{1, size / 2, size - 1, size - 4, 8} {
+				if over < 1 || over > size-1 {
+					continue
+				}
+				pid := uint32(i % 3)
+				a := v0 + ps - uint64(size-over)
+				switch i % 3 {
+				case 0:
+					add(rd(i%2, pid, a, size))
+					add(wr(0, (pid+1)%3, a, size, i%2 == 0)) // the same span under another process
+				case 1:
+					add(wr(0, pid, a, size, false))
+					add(rd(0, (pid+1)%3, a, size))
+				default:
+					add(wr(0, pid, a, size, true))
+					add(rd(0, (pid+1)%3, a, size))
+				}
+				i++
+			}
+		}
+		// control: accesses that end exactly at the page end or start at the next page
+		add(rd(1, 0, v0+ps-64, 64))
+		add(wr(0, 1, v0+ps-32, 32, true))
+		add(rd(0, 0, v0+ps, 64))
+		add(wr(0, 1, v0+ps, 16, false))
+		straddling = append(straddling, scenario{Name: fmt.Sprintf("canon-page-straddling-accesses-log2page-%d", log2), Cfg: sc, Pages: pg, Ops: ops})
+	}
 	v4k := []uint64{0x7000, 0x8000, 0x9000, 0xa000}
-	return []scenario{
+	return append([]scenario{
 		{Name: "canon-same-vaddr-two-processes", Cfg: base, Pages: pages(12, v4k...), Ops: samePage},
 		{Name: "canon-translation-reply-meets-full-bottom-port", Cfg: slow, Pages: pages(12, v4k...), Ops: burst},
 		{Name: "canon-64k-pages-large-offsets", Cfg: big, Pages: pages(16, 0x30000, 0x40000), Ops: far},
 		{Name: "canon-flush-midstream", Cfg: fl, Pages: pages(12, v4k...), Ops: long, Flushes: []memkit.CtrlStep{{At: 10, Gap: 5}, {At: 45, Gap: 0}}},
-	}
+	}, straddling...)
 }
 
 // ---------------------------------------------------------------------------
@@ -457,6 +536,14 @@ func runScenario(rec vlib.Recorder, s scenario) {
 	rec.Count("masked_writes", st.masked)
 	rec.Count("forwarded_requests_compared", st.forwards)
 	rec.Count("forwarded_with_offset_ge_4k", st.bigOffset)
+	rec.Count("page_straddling_reads_forwarded", st.strReads)
+	rec.Count("page_straddling_writes_forwarded", st.strWrites)
+	rec.Count("page_straddling_masked_writes_forwarded", st.strMasked)
+	rec.Count("page_straddling_read_responses_checked", st.strReadRsp)
+	rec.Count("read_response_lengths_compared", st.lenCompared)
+	for k := range st.strShapes {
+		rec.Distinct("straddle_log2page_x_size_x_bytes_over", k)
+	}
 	rec.Count("lookups", st.lookups)
 	rec.Count("coalesced_lookups", st.coalesced)
 	rec.Count("same_vpage_other_pid_lookup_pending", st.hazard)
@@ -516,11 +603,12 @@ func finishOpts(replay bool) vlib.FinishOpts {
 	o := vlib.FinishOpts{
 		Rule: "scenario = (per-cycle width = port-buffer size, page size 2^12..2^16, page table with every virtual page mapped under every PID to " +
 			"distinct physical pages, 1-2 requesters, bursty timed stream of reads / writes / masked writes of 1-64 bytes with unique " +
-			"(PID,virtual address), delay/reorder/back-pressure policies of translation service and memory, flush+restart points); generated " +
+			"(PID,virtual address), in most scenarios 1/4..1/10 of them placed so that the last 1..size-1 bytes lie beyond the end of the page, delay/reorder/back-pressure policies of translation service and memory, flush+restart points); generated " +
 			"from VERIF_SEED plus a fixed canonical battery; non-trivial = distinct scenario with >= 1 coalesced lookup and >= 1 translator " +
 			"tick that began with a translation reply waiting while the Bottom outgoing buffer was full",
 		Assumptions: []string{
-			"peers follow akita's port protocol; every injected request has a unique id and a unique (PID, virtual address); accesses do not cross a page",
+			"peers follow akita's port protocol; every injected request has a unique id and a unique (PID, virtual address)",
+			"an access whose span runs past the end of its page (a share of the ops in most scenarios, 1..size-1 bytes over) is judged like any other: the component's documented behaviour is to translate the page of the first byte and forward the access unsplit, and the property asks for exactly that (forwarded once, only the address translated, size / data / mask unchanged, the whole requested size answered); whether such an access ought to be split is not judged; the page behind need not be mapped",
 			"every accessed (PID, virtual page) is mapped; physical pages are distinct, so a forwarded physical address identifies its request",
 			"control handshake as the command processor drives it: DiscardTransactions, wait for NotifyDone, Restart, wait for NotifyDone",
 			"accepted = retrieved from the Top port while not between a DiscardTransactions and the following Restart; requests retrieved in that interval (dropped by Restart) need no response and must get none",
@@ -531,7 +619,9 @@ func finishOpts(replay bool) vlib.FinishOpts {
 		MinCounters: map[string]int64{"requests_accepted": 100000, "responses_checked": 100000, "reads": 30000, "writes": 30000,
 			"masked_writes": 5000, "coalesced_lookups": 10000, "same_vpage_other_pid_lookup_pending": 2000,
 			"translation_replies_out_of_order": 5000, "ticks_translation_reply_meets_full_bottom_port": 5000,
-			"forwarded_with_offset_ge_4k": 5000, "flushes": 1000, "discarded_transactions": 3000, "served_after_restart": 10000},
+			"forwarded_with_offset_ge_4k": 5000,
+			"page_straddling_reads_forwarded": 10000, "page_straddling_writes_forwarded": 10000, "page_straddling_masked_writes_forwarded": 3000,
+			"page_straddling_read_responses_checked": 8000, "read_response_lengths_compared": 30000, "flushes": 1000, "discarded_transactions": 3000, "served_after_restart": 10000},
 	}
 	if replay {
 		o.MinNontrivial = 0
